@@ -22,7 +22,7 @@ harness/src/c15.rs is the only evidence, on the inputs it generates):
   A file reaches the model as `CsvFile` = (can it be read to its end, text lines, is there a header
   row, the records and which of them do not decode).  In particular "gzip or plain" and "a gzip file
   cut short is a load error" are NOT Lean statements: `present = false` / `hasHeader = false` are
-  flags the harness sets from the bytes it wrote (corpus W10–W14), and `unreadable_file_never_loads`
+  flags the harness sets from the bytes it wrote (corpus W10–W18), and `unreadable_file_never_loads`
   / `empty_file_never_loads` say no more than what `readCsv` / `scanCount` do with those flags.
 * per-edge tables: that the real readers and consumers address a table by LINE NUMBER = edge id is how
   the model defines them (`tableRow`, `tableGet`, mirrored from `table.get(edge_id.as_usize())`); the
@@ -642,9 +642,10 @@ theorem unreadable_file_never_loads (ef : CsvFile (Edge α)) (vf : CsvFile (Vert
   · rw [h] at pe; exact absurd pe (by simp)
   · rw [h] at pv; exact absurd pv (by simp)
 
-/-- likewise for a file flagged as having no header row (`hasHeader = false`, set by the harness for a
-file without any content): it never loads, also with explicit counts.  Definitional over the flag in the
-same sense (corpus W14). -/
+/-- likewise for a file flagged as having no acceptable header row (`hasHeader = false`, set by the
+harness for a file without any content, for a header row that does not name the required columns and
+for a file without a header row): it never loads, also with explicit counts and also when it has no
+records at all.  Definitional over the flag in the same sense (corpus W14, W17, W18). -/
 theorem empty_file_never_loads (ef : CsvFile (Edge α)) (vf : CsvFile (Vertex α)) (nE nV : Option Nat)
     (h : ef.hasHeader = false ∨ vf.hasHeader = false) (g : Graph α) : graphFromFiles ef vf nE nV ≠ .ok g := by
   intro hg
@@ -1419,6 +1420,12 @@ example : graphFromFiles ⟨false, 41, true, (star 7).map Row.ok⟩ ⟨true, 4, 
     .error .csv := rfl
 example : graphFromFiles ⟨true, 0, false, ([] : List (Row (Edge Nat)))⟩ ⟨true, 4, true, (wVertices 3).map Row.ok⟩ (some 7) (some 3) =
     .error .csv := rfl
+-- a file that is nothing but a header row WITHOUT the required column names (flag false, no records),
+-- scanned counts: a load error, not an empty network (W17); WITH them it is an empty network
+example : graphFromFiles ⟨true, 1, false, ([] : List (Row (Edge Nat)))⟩ ⟨true, 4, true, (wVertices 3).map Row.ok⟩ none none =
+    .error .csv := rfl
+example : ∃ g, graphFromFiles ⟨true, 1, true, ([] : List (Row (Edge Nat)))⟩ ⟨true, 4, true, (wVertices 3).map Row.ok⟩ none none =
+    .ok g ∧ g.nEdges = 0 ∧ g.nVertices = 3 := ⟨_, rfl, rfl, rfl⟩
 -- (3) a Graph value whose fields disagree: edge 0 ends at a vertex that is not there, an adjacency entry
 -- names an edge that is not there
 def exGraph : Graph Nat := { adj := [[(0, 1), (5, 1)]], rev := [], edges := [⟨0, 0, 4, 9⟩], vertices := [⟨0, 1, 2⟩] }
